@@ -20,18 +20,31 @@ RR   == BNPow2(256)
 RInv == BNPowMod(RR, BNSub(LL, BNOfInt(2)), LL)
 VARIABLES a, b, ph, cst
 
+\* argument intervals: a reduced value has its top word at most 2^60 (l < 2^252 + 2^125), its top byte at most 0x10
+IvWords(red) == [i \in 1..4 |-> IF red /\ i = 4 THEN <<BNZero, BNPow2(60)>> ELSE IvFull]
+IvBytes(red) == [i \in 1..32 |-> IF red /\ i = 32 THEN <<BNZero, BNOfInt(16)>> ELSE <<BNZero, BNOfInt(255)>>]
 Words(v) == WordsOf(v, 4, 64)
 Bytes32(v) == WordsOf(v, 32, 8)
 Report(fn, st, ok) ==
     IF ok /\ st.bad = {} THEN TRUE
     ELSE PrintT("FFAIL " \o ToJson([fn |-> fn, a |-> a, b |-> b, bad |-> { ToString(x) : x \in st.bad }]))
 
+\* the two interpretations are bound to each other: every value of a concrete run (whose arguments are in range) lies in
+\* the interval the interval run computed for that variable; a value outside would make the interval proof meaningless
+\* (a defect of this specification, reported as FUNSOUND and treated as a failure of the machinery, not of the code)
+In(v, iv) == BNLe(iv[1], v) /\ BNLe(v, iv[2])
+Contained(fn, stc, sti) ==
+    \/ /\ \A x \in DOMAIN stc.env : x \in DOMAIN sti.env /\ In(stc.env[x], sti.env[x])
+       /\ \A i \in DOMAIN stc.out : i \in DOMAIN sti.out /\ In(stc.out[i], sti.out[i])
+    \/ PrintT("FUNSOUND " \o fn)
 Bin(fn, prog, want) ==
     prog = <<>> \/ LET st == FRun(prog, [p1 |-> Words(a), p2 |-> Words(b)]) IN
-                   Report(fn, st, DOMAIN st.out = 0..3 /\ OutVal(st, 4, 64) = want)
+                   /\ Report(fn, st, DOMAIN st.out = 0..3 /\ OutVal(st, 4, 64) = want)
+                   /\ Contained(fn, st, IRun(prog, [p1 |-> IvWords(TRUE), p2 |-> IvWords(TRUE)]))
 Un(fn, prog, arg, n, bits, want) ==
     prog = <<>> \/ LET st == FRun(prog, [p1 |-> arg]) IN
-                   Report(fn, st, DOMAIN st.out = 0..(n - 1) /\ OutVal(st, n, bits) = want)
+                   /\ Report(fn, st, DOMAIN st.out = 0..(n - 1) /\ OutVal(st, n, bits) = want)
+                   /\ Contained(fn, st, IRun(prog, [p1 |-> IF Len(arg) = 4 THEN IvWords(TRUE) ELSE IvBytes(TRUE)]))
 
 Concrete ==
     ph = 1 =>
@@ -47,9 +60,6 @@ Concrete ==
             /\ (FiatNonzero = <<>> \/ LET st == FRun(FiatNonzero, [p1 |-> Words(a)]) IN
                                       Report("FiatNonzero", st, BNIsZero(st.out[0]) <=> BNIsZero(a))))
 
-\* argument intervals: a reduced value has its top word at most 2^60 (l < 2^252 + 2^125), its top byte at most 0x10
-IvWords(red) == [i \in 1..4 |-> IF red /\ i = 4 THEN <<BNZero, BNPow2(60)>> ELSE IvFull]
-IvBytes(red) == [i \in 1..32 |-> IF red /\ i = 32 THEN <<BNZero, BNOfInt(16)>> ELSE <<BNZero, BNOfInt(255)>>]
 Lead(fn, prog, args) ==
     prog = <<>> \/ LET st == IRun(prog, args) IN
                    \A x \in st.bad : PrintT("FLEAD " \o ToJson([fn |-> fn, pc |-> x[2], what |-> x[1]]))
